@@ -418,7 +418,7 @@ func main() {
 				"callRequest.Serve", "callCompressedRequest.Serve", "notifyRequest.Serve", "framedMsgpackEncoder.compressData",
 				"receiveHandler.handleReceiveDispatch", "receiveHandler.receiveResponse", "receiveHandler.receiveCancel",
 				"rpcCallMessage.DecodeMessage", "rpcCallCompressedMessage.DecodeMessage", "rpcNotifyMessage.DecodeMessage",
-				"rpcResponseMessage.DecodeMessage", "rpcCancelMessage.DecodeMessage", "Client.call", "Client.Notify",
+				"rpcCancelMessage.DecodeMessage", "Client.call", "Client.Notify",
 				"framedMsgpackEncoder.encodeAndWriteInternal", "framedMsgpackEncoder.EncodeAndWriteAsync":
 				// value hand-overs between goroutine-local steps (compress, encode, hand off) must be interleavable
 				c.stmtYield = true
